@@ -870,6 +870,9 @@ V("c17f-recurrence-drops-previous", "C17", {"rule": "C17f", "contains": "connect
    "                    )\n\n                representation = connector.assign(", 1))
 V("c17f-one-particle-via-local", "C17", "silent",
   (NPCONN, "    subspace_representations.append(matrix)\n", "    one_particle = matrix\n    subspace_representations.append(one_particle)\n", 1))
+V("c17e-sign-selected-by-occupation-test", "C17", {"rule": "C17e", "contains": "squeezing2"},
+  (FFS, "            if j < size:\n                state._state_vector = connector.assign(\n                    state._state_vector, ((i, j),), U @ state._state_vector[(i, j),]\n                )",
+   "            if j < size:\n                if fallback_np.sum(index[: modes[0]]) % 2 == 1:\n                    pair_unitary = np.array([[1.0, -1.0], [-1.0, 1.0]]) * U\n                else:\n                    pair_unitary = U\n                state._state_vector = connector.assign(\n                    state._state_vector, ((i, j),), pair_unitary @ state._state_vector[(i, j),]\n                )"))
 V("c17d-amplitude-map-unchecked", "C17", {"rule": "C17d", "contains": "state_vector"},
   (FFSTEPS, "                if len(occ_numbers) != state._d or not all_zero_or_one(occ_numbers):", "                if len(occ_numbers) != state._d:"))
 V("c17d-gaussian-unchecked", "C17", {"rule": "C17d", "contains": "state_vector"},
